@@ -324,4 +324,26 @@ Section HistProofs.
       + unfold sc_len, sc_iter_end. cbn [sc_max sc_mat]. rewrite map_length, seq_length.
         apply Nat.min_l. unfold L, M in *. lia.
   Qed.
+  (* a sub-range call that ends any history: rows a..b of the full scan of THIS call *)
+  Lemma scores_history_sub_range h old c s a b mid :
+    sc_wf C old -> Forall hop_ok h -> call_on c s -> f_hrun C h old = Ok mid ->
+    length (c_pssm c) <= length s -> a < b -> b <= seq_R C (length s) ->
+    exists full sub,
+      generic_score F32.add F32.zero C (c_pssm c) (c_seq c) = Ok full /\
+      f_hstep C (HRowsInto c a b) mid = Ok sub /\
+      sc_mat sub = firstn (b - a) (skipn a (sc_mat full)) /\
+      sc_max sub = length s + 1 - length (c_pssm c).
+  Proof.
+    intros Hwf Hh Hon E HL Hab Hb.
+    assert (Hok : call_ok c) by (exists s; exact Hon).
+    destruct (scores_history h old (HRowsInto c a b) mid Hwf Hh I Hok E) as [_ Q].
+    destruct Hon as [HK [Hs [Hp [Hst [HM [Hw Hbe]]]]]].
+    destruct (C01_score_rows_sub f32 F32.add F32.zero C (c_K c) (c_pssm c) s (c_seq c) a b sc_empty
+                HC HK Hs Hp Hst HM Hw HL Hab Hb) as [full [sub [E1 [E2 [E3 E4]]]]].
+    exists full, sub. cbn [ref_call] in Q.
+    split; [exact E1|]. split; [exact (res_equiv_eq_ok _ _ _ Q E2)|]. split; [exact E3|].
+    rewrite E4.
+    pose proof (generic_score_striped F32.add F32.zero C (c_K c) (c_pssm c) s (c_seq c) HC HK Hs Hp Hst HM Hw HL) as G.
+    pose proof (eq_trans (eq_sym E1) G) as EE. inversion EE. reflexivity.
+  Qed.
 End HistProofs.
